@@ -40,7 +40,7 @@ func main() {
 				}
 			}
 			if !isP && len(ws) > 0 {
-				fmt.Printf("   free %s: hops=%d %s via %v @%s\n", r.Name(), ws[0].Hops, ws[0].Path, ws[0].Via, c.PosStr(ws[0].Pos))
+				for _, w := range ws { fmt.Printf("   free %s: hops=%d %s via %v @%s\n", r.Name(), w.Hops, w.Path, w.Via, c.PosStr(w.Pos)) }
 			}
 		}
 		fmt.Println("   returns:", f.Returns)
